@@ -54,6 +54,7 @@ type sendSpec struct {
 	To    int    `json:"to"`   // socket index for kind sock / loopback
 	Len   int    `json:"len"`
 	GapNs int64  `json:"gapNs"`
+	V4    bool   `json:"v4,omitempty"` // hand the destination IP to WriteTo in its 4-byte form
 }
 
 type phase2Spec struct {
@@ -174,9 +175,36 @@ func gen(r *harn.Rng, tier string) interface{} {
 	if tier == "thorough" && r.Bool(0.3) {
 		ns = r.Range(30, 120)
 	}
+	// steady stream through a bounded queue: m datagrams per MinDelay keep about m chunks queued
+	// in the root router, below its capacity q (m+2 <= q <= 2m-1): nothing may be dropped
+	stream := !faulty && r.Bool(0.06)
+	if stream {
+		var onRoot []int
+		for gi, s := range socks {
+			if sc.Hosts[s.host].Router == 0 && sc.Hosts[s.host].Socks[s.idx].Connect < 0 {
+				onRoot = append(onRoot, gi)
+			}
+		}
+		if len(onRoot) == 0 {
+			stream = false
+		} else {
+			m := r.Pick(3, 4, 4, 6)
+			q := r.Range(m+2, 2*m-1)
+			d := int64(r.Pick(1000000, 2000000, 10000000))
+			for i := range sc.Routers {
+				sc.Routers[i].JitterNs = 0
+			}
+			sc.Routers[0].QueueSize, sc.Routers[0].MinDelayNs = q, d
+			from, to := onRoot[r.Intn(len(onRoot))], onRoot[r.Intn(len(onRoot))]
+			for i, n := 0, r.Range(3*q, 6*q); i < n; i++ {
+				sc.Sends = append(sc.Sends, sendSpec{From: from, Kind: "sock", To: to, Len: r.Pick(12, 40, 200), GapNs: d / int64(m)})
+			}
+			ns = r.Range(0, 3)
+		}
+	}
 	for i := 0; i < ns; i++ {
 		from := r.Intn(len(socks))
-		sp := sendSpec{From: from, Len: r.Pick(0, 1, 4, 12, 13, 100, 1200, 1500), GapNs: int64(r.Pick(0, 0, 0, 1000, 100000, 1000000))}
+		sp := sendSpec{From: from, Len: r.Pick(0, 1, 4, 12, 13, 100, 1200, 1500), GapNs: int64(r.Pick(0, 0, 0, 1000, 100000, 1000000)), V4: r.Bool(0.3)}
 		x := r.Intn(100)
 		switch {
 		case x < 65:
@@ -302,6 +330,8 @@ type sentT struct {
 	chain     []*routerT // NATs crossed on the way up (inner to outer)
 	call, ret uint64
 	phase2    bool
+	path      []*routerT // routers whose queue the datagram enters (model); pathAll: any router
+	pathAll   bool
 	alt       *sockT // a second admissible receiver (socket re-bound to the same address)
 	mayOnly   bool   // may be lost, but if it arrives then at expect (or alt) only
 	wantSrc   string // expected source as seen by the receiver ("" = not fixed)
@@ -340,7 +370,8 @@ type world struct {
 	byTag   map[uint32]*sentT
 	nextTag uint32
 	faultWin [][2]uint64 // stamp windows in which a router on some path was stopped
-	lossy   bool
+	lossy   bool // a bounded queue or a dropping filter somewhere
+	filterLoss bool // a dropping chunk filter somewhere
 }
 
 func (w *world) routerOf(s *sockT) *routerT { return w.routers[s.host.spec.Router] }
@@ -398,11 +429,13 @@ func (w *world) route(st *sentT) {
 	if srcIP == "127.0.0.1" {
 		// a loopback-bound source cannot reach the network in a meaningful way
 		st.uncertain = true
+		st.pathAll = true
 		return
 	}
 	r := w.routerOf(s)
 	srcKnown := true
 	for {
+		st.path = append(st.path, r)
 		if r.cidr.Contains(dst.IP) {
 			// a host on this network?
 			for _, h := range w.hosts {
@@ -428,6 +461,7 @@ func (w *world) route(st *sentT) {
 					for _, a := range c.wanIPs {
 						if a == dst.IP.String() {
 							st.uncertain = true
+							st.pathAll = true // continues down into the child router(s)
 							return
 						}
 					}
@@ -507,6 +541,9 @@ func run(env *simrt.Env, sci interface{}) {
 		cfg := &vnet.RouterConfig{CIDR: cidr, LoggerFactory: quietLF(), MinDelay: time.Duration(rs.MinDelayNs), MaxJitter: time.Duration(rs.JitterNs), QueueSize: rs.QueueSize}
 		if rs.QueueSize > 0 || rs.DropOdd {
 			w.lossy = true
+		}
+		if rs.DropOdd {
+			w.filterLoss = true
 		}
 		if rs.Parent >= 0 {
 			p := w.routers[rs.Parent]
@@ -697,6 +734,11 @@ func run(env *simrt.Env, sci interface{}) {
 			// an address in this router's own subnet that nobody holds
 			base := strings.TrimSuffix(w.routerOf(from).cidr.IP.String(), ".0")
 			dst = &net.UDPAddr{IP: net.ParseIP(base + ".199"), Port: 4000}
+		}
+		if sp.V4 {
+			if v := dst.IP.To4(); v != nil {
+				dst.IP = v
+			}
 		}
 		st := mkSend(from, dst, sp.Kind, sp.Len)
 		st.seq = len(plan[from.gi])
@@ -1157,6 +1199,14 @@ func (w *world) check(final, hadStop bool) bool {
 			env.Probe("receive-queue-nearly-full")
 		}
 	}
+	recvStamp := map[uint32]uint64{}
+	for _, s := range w.socks {
+		for _, it := range s.inbox {
+			if t, ok := tagOf(it.payload); ok {
+				recvStamp[t] = it.stamp
+			}
+		}
+	}
 	// no loss (only where the property promises it)
 	for _, st := range w.sents {
 		if st.uncertain || st.expect == nil || st.ret == 0 || len(st.payload) < 12 {
@@ -1166,8 +1216,53 @@ func (w *world) check(final, hadStop bool) bool {
 			env.Probe("delivered")
 			continue
 		}
-		if w.lossy || st.noLossOK || st.mayOnly || (st.expect.lazy && !st.phase2) {
+		if st.noLossOK || st.mayOnly || (st.expect.lazy && !st.phase2) {
 			continue
+		}
+		if w.lossy {
+			// bounded queues: a datagram may be dropped only by a queue that was full. It is not
+			// excused when, for every bounded router on its path, fewer datagrams than the queue
+			// holds can have been inside that router when it arrived there.
+			if w.filterLoss || hadStop || st.phase2 || len(st.path) == 0 || st.pathAll {
+				continue
+			}
+			excused := false
+			for pi, rt := range st.path {
+				q := rt.spec.QueueSize
+				if q <= 0 {
+					continue
+				}
+				cand := 0
+				for _, d := range w.sents {
+					if d == st || d.call == 0 {
+						continue
+					}
+					if rs, ok := recvStamp[d.tag]; ok && rs < st.call {
+						continue // had left every queue before this one was written
+					}
+					if pi == 0 && d.call > st.ret && !d.phase2 {
+						continue // the first router is entered during the write itself
+					}
+					on := d.pathAll || d.phase2
+					for _, x := range d.path {
+						if x == rt {
+							on = true
+						}
+					}
+					if on {
+						cand++
+					}
+				}
+				if cand >= q {
+					excused = true
+				}
+			}
+			if excused {
+				continue
+			}
+			env.Probe("loss-not-excused-by-queue-bound")
+			env.Fail("C01/lost", "datagram %d (%s, %s -> %s, %d bytes) was never received by socket %s; the bounded queues on its path (%s) cannot have been full: fewer datagrams than each holds can have been inside when it arrived", st.tag, st.kind, st.from.desc(), st.dst, len(st.payload), st.expect.desc(), pathDesc(st.path))
+			return false
 		}
 		inWin := false
 		for range w.faultWin {
@@ -1180,6 +1275,14 @@ func (w *world) check(final, hadStop bool) bool {
 		return false
 	}
 	return true
+}
+
+func pathDesc(p []*routerT) string {
+	out := ""
+	for _, r := range p {
+		out += fmt.Sprintf(" router#%d(queue %d)", r.idx, r.spec.QueueSize)
+	}
+	return strings.TrimSpace(out)
 }
 
 func (s *sockT) desc() string {
